@@ -30,7 +30,9 @@ HasS(t) == \E i \in 1..Len(t) : \E j \in 1..Len(t[i]) : t[i][j] = "s"
 (* both spelled with an encoded octet) | dec (prefix plain, client spells it encoded) |            *)
 (* mid (occurs in the path, not at its start)          add: none | plain | enc                     *)
 StripAdd == {<<"none", "none">>, <<"seg1", "none">>, <<"seg2", "none">>, <<"seg2enc", "none">>, <<"mid", "none">>,
-             <<"dec", "none">>, <<"none", "plain">>, <<"seg1", "plain">>, <<"seg2", "enc">>}
+             <<"dec", "none">>, <<"none", "plain">>, <<"seg1", "plain">>, <<"seg2", "enc">>,
+             \* a prefix to strip that the path does not start with, and a prefix to add: the second still applies
+             <<"mid", "plain">>, <<"mid", "enc">>, <<"dec", "plain">>}
 
 NoFh == [n \in Names |-> 0]
 
